@@ -7,5 +7,7 @@ CONSTANTS
   Vals = {0}
   MaxS = 1
   SVals = {0}
+  MaxSteps = 1
+  StepVals = {0}
   Variant = "axis0"
 CHECK_DEADLOCK FALSE
